@@ -28,6 +28,31 @@ def judge(world, procs, sched, drv):
     for nm, r in (("C01", r1), ("C04", r4)):
         if not r["ok"]:
             bad.append({"oracle": nm, "verdict": r["verdict"]})
+    # C07 under concurrency: every entry of these worlds is trashable and the first usable candidate of each process stays
+    # usable whatever the other processes do (they only create it, or add to it): each process succeeds, into that directory
+    from ..model import snap_to_state
+    st0, st1 = snap_to_state(obs["before"]), snap_to_state(obs["after"])
+    expected = []
+    def vol_of(p_):
+        return max((m_ for m_ in world["mounts"] if p_ == m_ or p_.startswith(m_.rstrip(b"/") + b"/")), key=len, default=R)
+    for f in obs["facts"]:
+        ent = f["items"][0]["entry"]
+        if ent is None:
+            expected.append(None)
+            continue
+        ev = vol_of(ent)
+        usable = [d for d in f["dirs"] if d.get("parentOk") and not d.get("blocked") and
+                  ((d["kind"] == "home" and vol_of(d["dir"]) == ev) or (d["kind"] in ("top", "alt") and d["base"] == ev and vol_of(f["dirs"][0]["dir"]) != ev))]
+        expected.append(usable[0]["dir"] if usable else None)
+    new_infos = [p for p in st1 if p not in st0 and p.endswith(b".trashinfo") and b"/info/" in p]
+    for k, (pr, exp) in enumerate(zip(obs["procs"], expected)):
+        if exp is not None and pr["exit"] != 0 and not pr["exc"]:
+            bad.append({"oracle": "C07", "verdict": "process %d: %r is usable (or can be created) but the entry was not trashed: %r"
+                                                    % (k, exp, pr["stderr"][-300:])})
+    if all(e is not None for e in expected):
+        stray = [p for p in new_infos if not any(p.startswith(e + b"/info/") for e in expected)]
+        if stray:
+            bad.append({"oracle": "C07", "verdict": "entries trashed outside the prescribed directories %r: %r" % (sorted(set(expected)), stray[:3])})
     for k, pr in enumerate(obs["procs"]):
         if pr["exc"]:
             bad.append({"oracle": "no-traceback", "verdict": "process %d: uncaught %s" % (k, pr["exc"])})
